@@ -173,6 +173,9 @@ var RangeFunc = function.New(&function.Spec{
 			return cty.NilVal, function.NewArgErrorf(2, "step must not be zero")
 		}
 		down := step.LessThan(cty.Zero).True()
+		if start.AsBigFloat().IsInf() && step.AsBigFloat().IsInf() && start.AsBigFloat().Sign() != step.AsBigFloat().Sign() {
+			return cty.NilVal, function.NewArgErrorf(2, "start and step must not be infinities of opposite signs")
+		}
 
 		if down {
 			if end.GreaterThan(start).True() {
